@@ -184,16 +184,17 @@ def register(run, model, rule="C18.register"):
             elif sup[0].id not in cfg.dominators()[n.id]:
                 bad = "the hook can run before the class exists"
             else:
-                want = ("op", "cmp:NotEq", (("attr", cls_t, "__module__"), ("builtin", "__name__")))
+                # `cls.__module__ != __name__` (facts are kept on the positive atom: `==` known false)
+                want = ("op", "cmp:Eq", (("attr", cls_t, "__module__"), ("builtin", "__name__")))
                 atom = None
                 for (nid, k), (kn, atoms) in gg.edge_facts.items():
                     for a_, pol in kn:
-                        if a_ == want and pol:
+                        if a_ == want and not pol:
                             atom = a_
                 if atom is None:
                     guards = [show(strip_sites(flow.term(x.ast, x)), 90) for x in cfg.nodes if x.kind == "test" and n.id in gg.reach([t for k, t in x.succ if k == "T"], None, None, False) and x.lineno > sup[0].lineno]
                     bad = "the announcement is guarded by %s instead of `cls.__module__ != __name__`: classes of other modules are not announced (or the library's own are)" % (guards[-1:] or "nothing")
-                elif not gg.necessary(normal_succ(sup[0]), [n.id], (atom, True)) or not gg.sufficient(normal_succ(sup[0]), [n.id], [cfg.exit_return.id], [(atom, True)]):
+                elif not gg.necessary(normal_succ(sup[0]), [n.id], (atom, False)) or not gg.sufficient(normal_succ(sup[0]), [n.id], [cfg.exit_return.id], [(atom, False)]):
                     bad = "not every class created outside the library is announced exactly once before it is returned"
                 else:
                     # at most once: the hook call is not inside a loop
